@@ -68,6 +68,12 @@ impl SwiftField for Field62F {
     where
         Self: Sized,
     {
+        if !input.is_ascii() {
+            return Err(ParseError::InvalidFormat {
+                message: "Field 62F must contain only ASCII characters".to_string(),
+            });
+        }
+
         // Format: 1!a6!n3!a15d - DebitCredit + Date + Currency + Amount
         if input.len() < 10 {
             return Err(ParseError::InvalidFormat {
@@ -119,6 +125,12 @@ impl SwiftField for Field62M {
     where
         Self: Sized,
     {
+        if !input.is_ascii() {
+            return Err(ParseError::InvalidFormat {
+                message: "Field 62M must contain only ASCII characters".to_string(),
+            });
+        }
+
         // Format: 1!a6!n3!a15d - DebitCredit + Date + Currency + Amount
         if input.len() < 10 {
             return Err(ParseError::InvalidFormat {
